@@ -125,6 +125,21 @@ def plan(tier, seed):
                     c3 = dict(c2)
                     c3['All-in Vertical Drilling Costs'] = '1846'
                     P.append({'fam': fam, 'changes': c3})
+    # laterals on the standard (open-loop) economics: geometry x section count x section length x cased x per-metre figure / correlation
+    for pair in ((1, 1), (2, 9)):
+        fam = {'econ': 1, 'enduse': pair[0], 'plant': pair[1], 'res': 4, 'shape': [3, 1, 1]}
+        for config in ('1', '2', '3', '4'):
+            for nsec in ('1', '3'):
+                for sec_m in ('750', '300'):
+                    for cased in ('True', 'False'):
+                        for cost in ({}, {'All-in Nonvertical Drilling Costs': '900'}, {'Well Drilling Cost Correlation': '3'},
+                                     {'Well Drilling and Completion Capital Cost Adjustment Factor': '2.5'}):
+                            if tier == 'quick' and pair == (2, 9) and (cost or sec_m == '300'):
+                                continue
+                            ch = {'Well Geometry Configuration': config, 'Number of Multilateral Sections': nsec, 'Nonvertical Length per Multilateral Section': sec_m,
+                                  'Multilaterals Cased': cased}
+                            ch.update(cost)
+                            P.append({'fam': fam, 'changes': ch})
     # closed-loop (SBT) well field: vertical sections + laterals + junction legs, every correlation, cased / uncased, section counts
     for fam in F.sbt_grid(econs=(1, 2, 3) if tier == 'thorough' else (3,)):
         P.append({'fam': fam, 'changes': {}, 'base': True})
